@@ -135,13 +135,15 @@ def unknown_helpers(fn):
         if '(lambda)' in callee.tname:
             a0 = fn.n(fn.strip(nd['args'][0])) if nd.get('args') else {}
             name = a0.get('n', '')
+            # only closures defined as locals of this function: a functor parameter (in, out) is not a helper of it
+            if a0.get('c') != 'DeclRefExpr' or a0.get('dk') not in ('local', 'static_local'):
+                continue
             if fn.tname not in known['functions'] or (fn.tname + '|' + name) in known['closures']:
                 continue
         elif callee.tname in known['functions']:
             continue
-        rets = [r for r in callee.returns() if callee.n(r)['ch']]
-        simple = len(rets) == 1 and callee.body and len(callee.n(callee.body).get('ch', [])) <= 3
-        if not simple:
+        from ir import expandable_helper
+        if not expandable_helper(callee):
             out.append(callee.name if '(lambda)' not in callee.tname else 'closure `' + name + '`')
     return sorted(set(out))
 
